@@ -1,5 +1,8 @@
 /* Reference ?trsm_ / ?gemm_ for the USE_VENDOR_BLAS build of the library (the configuration the repository's CMake build uses):
- * /repo/CBLAS has the level-1/2 routines only, and ?gstrs calls these two level-3 routines in that configuration.  Only the cases
+ * /repo/CBLAS has the level-1/2 routines only, and ?gstrs calls these two level-3 routines in that configuration.  ?gemv_ and ?trsv_ are
+ * defined here as well: the f2c-translated ones of /repo/CBLAS keep their locals in static storage, i.e. they are not thread-safe, and the
+ * repository never combines them with USE_VENDOR_BLAS (CMake sets that flag only when an external, thread-safe BLAS was found); worker
+ * threads call both in this configuration.  Only the cases
  * the library uses are implemented (trsm: side L, no transpose, alpha = 1; gemm: no transposes); anything else stops the program. */
 #include <stdio.h>
 #include <stdlib.h>
@@ -22,3 +25,29 @@ int NAME(char *ta, char *tb, int *m, int *n, int *k, T *alpha, T *a, int *lda, T
   return 0; }
 TRSM(strsm_, float) TRSM(dtrsm_, double) TRSM(ctrsm_, float complex) TRSM(ztrsm_, double complex)
 GEMM(sgemm_, float) GEMM(dgemm_, double) GEMM(cgemm_, float complex) GEMM(zgemm_, double complex)
+
+#define CJ_float(x) (x)
+#define CJ_double(x) (x)
+#define GEMV(NAME, T, CJ) \
+int NAME(char *trans, int *m, int *n, T *alpha, T *a, int *lda, T *x, int *incx, T *beta, T *y, int *incy) \
+{ int i, j, M = *m, N = *n, LA = *lda, ix = *incx, iy = *incy, leny = is(trans, 'N') ? M : N; \
+  if (ix <= 0 || iy <= 0) bad(#NAME " with a non-positive increment"); \
+  for (i = 0; i < leny; ++i) y[(long) i * iy] = (*beta == (T) 0) ? (T) 0 : *beta * y[(long) i * iy]; \
+  if (is(trans, 'N')) { for (j = 0; j < N; ++j) { T t = *alpha * x[(long) j * ix]; for (i = 0; i < M; ++i) y[(long) i * iy] += t * a[i + (long) j * LA]; } } \
+  else { int cj = is(trans, 'C'); for (j = 0; j < N; ++j) { T t = (T) 0; for (i = 0; i < M; ++i) t += (cj ? CJ(a[i + (long) j * LA]) : a[i + (long) j * LA]) * x[(long) i * ix]; y[(long) j * iy] += *alpha * t; } } \
+  return 0; }
+#define TRSV(NAME, T, CJ) \
+int NAME(char *uplo, char *trans, char *diag, int *n, T *a, int *lda, T *x, int *incx) \
+{ int i, k, N = *n, LA = *lda, unit = is(diag, 'U'), lower = is(uplo, 'L'), cj = is(trans, 'C'); \
+  if (*incx != 1) bad(#NAME " with an increment other than 1"); \
+  if (is(trans, 'N')) { \
+    if (lower) { for (k = 0; k < N; ++k) { if (!unit) x[k] = x[k] / a[k + (long) k * LA]; for (i = k + 1; i < N; ++i) x[i] -= x[k] * a[i + (long) k * LA]; } } \
+    else { for (k = N - 1; k >= 0; --k) { if (!unit) x[k] = x[k] / a[k + (long) k * LA]; for (i = 0; i < k; ++i) x[i] -= x[k] * a[i + (long) k * LA]; } } \
+  } else { /* op(A) = A^T or A^H: row k of op(A) is column k of A */ \
+    if (lower) { for (k = N - 1; k >= 0; --k) { T t = x[k]; for (i = k + 1; i < N; ++i) t -= (cj ? CJ(a[i + (long) k * LA]) : a[i + (long) k * LA]) * x[i]; \
+                                               x[k] = unit ? t : t / (cj ? CJ(a[k + (long) k * LA]) : a[k + (long) k * LA]); } } \
+    else { for (k = 0; k < N; ++k) { T t = x[k]; for (i = 0; i < k; ++i) t -= (cj ? CJ(a[i + (long) k * LA]) : a[i + (long) k * LA]) * x[i]; \
+                                    x[k] = unit ? t : t / (cj ? CJ(a[k + (long) k * LA]) : a[k + (long) k * LA]); } } } \
+  return 0; }
+GEMV(sgemv_, float, CJ_float) GEMV(dgemv_, double, CJ_double) GEMV(cgemv_, float complex, conjf) GEMV(zgemv_, double complex, conj)
+TRSV(strsv_, float, CJ_float) TRSV(dtrsv_, double, CJ_double) TRSV(ctrsv_, float complex, conjf) TRSV(ztrsv_, double complex, conj)
